@@ -392,8 +392,10 @@ def check(spec, mods, res=None):
             ws, es = sequential(spec, mods)
         except NotComparable:
             return "batch-raised;not-comparable", diffs
-        if es is None and not is_documented_refusal(eb):
-            diffs.append(C.D("batch-raises-sequential-succeeds", r_exc=type(eb).__name__, msg=str(eb)[:100], r_known_exception=any(d["kind"] == "apply-raised" for d in diffs)))
+        if es is None and not is_documented_refusal(eb) and not any(d["kind"] == "apply-raised" for d in diffs):
+            # (when the batch exception itself is reported as apply-raised, that discrepancy carries the
+            # signature - known finding or violation - and this one would only repeat it)
+            diffs.append(C.D("batch-raises-sequential-succeeds", r_exc=type(eb).__name__, msg=str(eb)[:100]))
         return "batch-raised:" + type(eb).__name__, diffs
     if len(mods) < 2:
         return "ok-single", diffs
